@@ -783,7 +783,7 @@ fn filters(all: bool) -> Vec<Filter> {
 }
 
 fn parts(ctx: &Ctx) -> Vec<PartSpec> {
-    let b = if ctx.quick() { 50.0 } else { 2400.0 };
+    let b = if ctx.quick() { 150.0 } else { 2400.0 };
     let mut v = vec![PartSpec::new("value-types", json!({"p": "values"})), PartSpec::new("explicit-parents", json!({"p": "explicit"})), PartSpec::new("record-window", json!({"p": "window"}))];
     let fl = filters(true);
     let depth = if ctx.quick() { 3 } else { 4 };
